@@ -362,13 +362,17 @@ func checkC17(c *Ctx) (string, []string) {
 	}
 	// parser call shapes
 	pf := c.Fn(mzPkg, "StateKeyValsToState")
+	pho := shapeOpts
+	pho.inline = func(g *ssa.Function) bool {
+		return g != nil && g != pf && len(g.Blocks) > 0 && g.Pkg != nil && g.Pkg == pf.Pkg && !token.IsExported(g.Name()) && !strings.HasPrefix(g.Name(), "update") && g.Signature.Recv() == nil
+	}
 	upArgs := func(name string) []string {
 		var out []string
-		allInstrs(pf, func(in ssa.Instruction) {
+		visitWithHelpers(pf, pho, func(g *ssa.Function, subst map[ssa.Value]string, in ssa.Instruction) {
 			if ci, ok := in.(ssa.CallInstruction); ok && calleeFunc(ci) != nil && calleeFunc(ci).Name() == name {
 				var as []string
 				for _, a := range ci.Common().Args[1:] {
-					as = append(as, abbr(exprStr(a, shapeOpts)))
+					as = append(as, abbr(exprStrSubst(a, shapeOpts, subst)))
 				}
 				out = append(out, strings.Join(as, ", "))
 			}
@@ -453,6 +457,57 @@ func checkC17(c *Ctx) (string, []string) {
 		}
 		return false
 	}
+	// a helper that reports "matched" only after it has written the entry's content into the state it was given
+	matchedWriter := map[*ssa.Function]bool{}
+	for _, g := range c.SrcFuncs(mzPkg) {
+		if g == pf || len(g.Params) == 0 || g.Signature.Results().Len() == 0 || !isBoolT(g.Signature.Results().At(0).Type()) {
+			continue
+		}
+		writes := func(in ssa.Instruction) bool {
+			if ci, ok := in.(ssa.CallInstruction); ok {
+				if sc := calleeFunc(ci); sc != nil && strings.HasPrefix(sc.Name(), "update") && len(ci.Common().Args) > 0 && ci.Common().Args[0] == ssa.Value(g.Params[0]) {
+					return true
+				}
+			}
+			return false
+		}
+		any, ok := false, true
+		allInstrs(g, func(in ssa.Instruction) {
+			if writes(in) {
+				any = true
+			}
+		})
+		if !any {
+			continue
+		}
+		allInstrs(g, func(in ssa.Instruction) {
+			r, isR := in.(*ssa.Return)
+			if !isR {
+				return
+			}
+			if k, isC := retResults(r)[0].(*ssa.Const); isC && k.Value != nil && k.Value.String() == "false" {
+				return
+			}
+			if _, reach := findPath(pathQuery{fn: g, target: func(i ssa.Instruction) bool { return i == in }, blocker: writes}); reach {
+				ok = false
+			}
+		})
+		if ok {
+			matchedWriter[g] = true
+		}
+	}
+	matchedEdge := func(e edge) bool {
+		ifi, ok := e.from.Instrs[len(e.from.Instrs)-1].(*ssa.If)
+		if !ok || e.succ != 0 {
+			return false
+		}
+		ex, ok := ifi.Cond.(*ssa.Extract)
+		if !ok || ex.Index != 0 {
+			return false
+		}
+		call, ok := ex.Tuple.(*ssa.Call)
+		return ok && matchedWriter[call.Call.StaticCallee()] && len(call.Call.Args) > 0 && abbr(exprStr(call.Call.Args[0], shapeOpts)) == "alloc:types.State"
+	}
 	ndel := 0
 	if pool != nil {
 		var starts []ssa.Instruction
@@ -479,7 +534,7 @@ func checkC17(c *Ctx) (string, []string) {
 			ndel++
 			bad := false
 			for _, st := range starts {
-				if _, reach := findPath(pathQuery{start: st, target: func(i ssa.Instruction) bool { return i == in }, blocker: func(i ssa.Instruction) bool {
+				if _, reach := findPath(pathQuery{start: st, target: func(i ssa.Instruction) bool { return i == in }, edgeBlock: matchedEdge, blocker: func(i ssa.Instruction) bool {
 					if isStateWrite(i) {
 						return true
 					}
@@ -500,7 +555,7 @@ func checkC17(c *Ctx) (string, []string) {
 			c.Check(!bad, "C17.unmatched", fmt.Sprintf("%sStateKeyValsToState · delete #%d", K, ndel), in.Pos(), "reached only after the entry's content was written into the state", "an entry can be removed from the unmatched pool on a path that stored nothing into the state: it is silently dropped")
 		})
 	}
-	c.Check(ndel >= 19, "C17.unmatched", K+"StateKeyValsToState · delete sites", pf.Pos(), fmt.Sprintf("%d delete sites examined", ndel), fmt.Sprintf("only %d delete sites found (19 confirmed)", ndel))
+	c.Check(ndel >= 17, "C17.unmatched", K+"StateKeyValsToState · delete sites", pf.Pos(), fmt.Sprintf("%d delete sites examined", ndel), fmt.Sprintf("only %d delete sites found (one per component arm plus the service-entry arms)", ndel))
 	// returned pool = all remaining entries
 	rs := abbrMap(returnShapes(pf))
 	okRet := false
